@@ -16,6 +16,12 @@ CHECKS = {
  "C19": ("exploration", "runtime monitoring: adversarially related transcript pairs judged against an independent canonical encoding; commitment alteration lattice",
          "Seeded generation of typed item sequences and related pairs (boundary/domain shifts, split/merge, retyping, permutation, framing pasted as bytes crafted against weakened framings); a digest collision between sequences whose canonical encodings differ is the violation; commitments must refuse every altered tuple/decommitment.",
          "Abstract identity of items computed by harness code; blake3 collision resistance.", "5/C19"),
+ "C03": ("fault_enumeration", "runtime monitoring: single-fault campaigns through the real handlers, fault catalogue derived mechanically from the recorded honest transcript, result oracle by independent verifiers and cross-party consistency",
+         "For every protocol and corrupted position, every leaf of every message of the corrupted participant x typed alterations x echo-consistent / wire-only delivery, plus whole-message substitutions, one fault per run; every honest party must be unfinished, failed, or hold a correct result consistent with every other honest finisher. Complete catalogues for FROST/Doerner, stratified samples (quick) or complete (thorough) for CMP.",
+         "One deviating participant; a panic of an honest party counts as not finished here (C05 judges it).", "5/C03"),
+ "C04": ("fault_enumeration", "runtime monitoring: the C03 fault campaigns judged by a culprit oracle with simulator ground truth, plus reflective state-level deviations of a CMP presigner in the offline, full and online variants",
+         "Culprit soundness (named parties are the corrupted one; relayed aborts name a real notice sender; no self-blame; verification failures attributed to the sender) over the whole catalogue, and identifiable abort (every honest signer ends with culprits=[cheater]) for wrong chi / gamma / delta / sigma contributions whose individual proofs all pass.",
+         "State is altered by reflection between deliveries; abort notices are suppressed in identifiable-abort runs.", "5/C04"),
  "C06": ("fault_enumeration", "runtime monitoring: shielded twin handlers (two real handlers with one identity, forked randomness at round k) as the equivocator, every bipartition of the honest parties, offline view-consistency checker over the simulator log",
          "For every MultiHandler protocol, non-final broadcast round k, equivocator position and bipartition (sampled for the expensive ones), the two groups receive individually valid but different payloads; twins are shielded so that only the honest handlers' echo comparison can stop the session; two honest finishers with different recorded views are the violation. A wire-only one-byte flip is the weak variant.",
          "Twins coincide up to round k-1 through identical deterministic randomness streams; honest-to-honest traffic is never modified.", "5/C06"),
